@@ -469,6 +469,13 @@ Qed.
     The definition is kept (as [True]) so that the statements have the same shape as [Acct_step] / [IdentG_step]. *)
 Definition wf_op_alloc (c : cell) (o : op) : Prop := True.
 
+Lemma AllocWf_force_identity c an i : AllocWf c -> AllocWf (force_identity c an i).
+Proof.
+  unfold force_identity. destruct i as [i|]; [|tauto]. destruct (get_app an (c_apps c)) as [a|]; [|tauto].
+  destruct (group_of c a) as [[g grp]|]; [|tauto].
+  intros H. apply AllocWf_upd_app; [intros x; split; reflexivity|]. revert H. apply AllocWf_ext; reflexivity.
+Qed.
+
 Theorem AllocWf_step_any c o : AllocWf c -> AllocWf (step c o).
 Proof.
   intros H. destruct o; cbn [step].
@@ -512,6 +519,11 @@ Proof.
   - revert H; apply AllocWf_ext; reflexivity.
   - pose proof (schedule_ps c choices) as Hps. destruct (schedule c choices) as [[c' qs] pl]. cbn [fst] in Hps.
     eapply AllocWf_psteps; eassumption.
+  - (* ORestore *)
+    unfold restore_op. destruct (get_app aname (c_apps c)) as [a|]; [|exact H].
+    pose proof (AllocWf_psteps _ _ (restore_put_ps c sname aname verbatim expires) H) as H1.
+    destruct (restore_put c sname aname verbatim expires) as [c1 ok]. cbn [fst] in H1.
+    destruct ok; [apply AllocWf_force_identity; exact H1|]. destruct (a_once a); [apply AllocWf_remove_app|]; exact H1.
 Qed.
 
 Lemma AllocWf_step c o : AllocWf c -> wf_op_alloc c o -> AllocWf (step c o).
